@@ -17,8 +17,8 @@ MANIFEST = {
              'its column), C09_blocks_append, C09_blocks_column_read, C09_hier_append; unconditional C09_index_labels_never_lost, '
              'C09_index_append_atomic, C09_hier_append_rejected; never shared: C09_never_shared and C09_growth_isolated over every interleaving of '
              'growth with to_frame/to_frame_go/to_frame_he/Frame(f)/FrameGO(f)/FrameHE(f), stated over decision tables REGENERATED from the AST of '
-             'frame.py/container_util.py/index.py/type_blocks.py on every run (C09_index_filters_copy_across_the_boundary). Refuted/C09.v: six '
-             'witnesses that the guards are necessary (the known findings). Correspondence: recorded histories of the real containers (valid, '
+             'frame.py/container_util.py/index.py/type_blocks.py on every run (C09_index_filters_copy_across_the_boundary). Refuted/C09.v: five '
+             'witnesses that the guards are necessary (the known findings; the sixth, IndexLevelGO.append misplacing a key, was repaired by fix 5320f59 and C09_hier_append now holds without a guard). Correspondence: recorded histories of the real containers (valid, '
              'duplicate, partially duplicate, wrong length, 2-D, unaligned index, wrong depth) replayed through M and S inside Coq after every '
              'step; object identity of _columns/_blocks between all live frames compared with the world model; ~100 public derivations x 13 '
              'sources grown in both directions with every other live container re-read and mutable members compared by identity.'),
@@ -188,7 +188,7 @@ def index_exhaustive(ctx):
                         ('extend', [2, 3]), ('extend', [1, 5]), ('append', True), ('read',)]),
     ]
     for auto, labels, alpha in alphabets:
-        for n in range(1, N + 1):
+        for n in range(1, (N if auto else 3) + 1):
             for ops in itertools.product(alpha, repeat=n):
                 # look after every step except directly after the first (exercises append-append without a read)
                 look = [i != 0 for i in range(n)]
@@ -1453,7 +1453,7 @@ def classify_hier_ops(labels, depth, ops):
                 if d is not None and d < depth - 1:
                     siblings = {l[d] for l in cur if l[:d] == last[:d]}
                     if key[d] in siblings:
-                        return F_HIER_EDGE          # found in the node on the last edge, but not its last label
+                        continue                    # found in the node on the last edge but not its last label: rejected since fix 5320f59
             if key not in cur:
                 cur.append(key)
             continue
